@@ -52,6 +52,9 @@ SLASH_FOREIGN = ["/api/v1/plans/20200227/x", "/abs/full/Op/20200227/f", "abs/ful
 # API when it is closed (harness/impl/fake_s3.py PAGE_SIZE = 3: S3 may answer any listing with fewer keys than asked for
 # and IsTruncated, so clean-up code has to follow the continuation whatever the page size is)
 FAKE_PAGE_SIZE = 3
+# how a `with cassette:` block is left: normally (None), through an Exception raised by the body ("error"), through an
+# exception that is not an Exception subclass, like KeyboardInterrupt ("interrupt")
+EXIT_MODES = [None, "error", "interrupt"]
 LONG_COUNTS = [FAKE_PAGE_SIZE + 1, FAKE_PAGE_SIZE + 2, 2 * FAKE_PAGE_SIZE, 2 * FAKE_PAGE_SIZE + 1, 3 * FAKE_PAGE_SIZE + 1]
 
 
@@ -168,6 +171,21 @@ def gen_case(rng, tier, stream):
             ops.append(dict(op="raw_put", key=k, body="foreign again"))
     if stream == "long":
         ops.append(dict(op=rng.choice(["close", "exit"]), cas=0))
+    if stream == "exits":
+        # every cassette of the case is closed / left as a context manager at the end, in a random order; a `with` block is
+        # left normally or through an exception raised by its body (EXIT_MODES); the exits drawn above likewise
+        for o in ops:
+            if o["op"] == "exit":
+                o["raises"] = rng.choice(EXIT_MODES)
+        order = list(range(len(cass)))
+        rng.shuffle(order)
+        for ci in order:
+            if rng.random() < 0.25:
+                ops.append(dict(op="close", cas=ci))
+            else:
+                ops.append(dict(op="exit", cas=ci, raises=rng.choice(EXIT_MODES)))
+            if rng.random() < 0.4:
+                ops.append(dict(op="list", cas=rng.randrange(len(cass)), cat=rng.choice(cats)))
     # the ids of residues are "known from elsewhere": read them through every read-only view at the end
     for ci, c in enumerate(cass):
         if c["read_only"] and saved and rng.random() < 0.8:
@@ -226,6 +244,26 @@ def fixed_slashes(p, cat, p2):
     return dict(cassettes=cass, ops=ops, categories=sorted(set(["Op", cat])), stream="fixed-slashes")
 
 
+def fixed_exits(ro, tr, how, k):
+    """a writer stores two recordings under prefix p (one more under a neighbour prefix), then a cassette on p in the
+    read_only / transient combination (ro, tr) is closed (how = "close") or used as a context manager whose block is left
+    normally (None), through an Exception ("error") or through a non-Exception interrupt ("interrupt"); twice"""
+    p, p2 = [("a", "ab"), ("", "a"), ("a/b", "a"), ("ab", "a")][k % 4]
+    cass = [W(p, False), W(p2, False), W(p, tr, read_only=ro), W(p, False, read_only=True)]
+    leave = dict(op="close", cas=2) if how == "close" else dict(op="exit", cas=2, raises=how)
+    ops = [dict(op="raw_put", key=key, body="foreign") for key in FOREIGN]
+    ops += [dict(op="create", cas=0, slot=0, cat="Op", day=0, data=[["k", pv.i(1)]], meta=[["m", pv.i(2)]]),
+            dict(op="save", cas=0, slot=0, ratio=None, crash=None),
+            dict(op="create", cas=0, slot=1, cat="OpX", day=1, data=[["k", pv.s("x")]], meta=[]),
+            dict(op="save", cas=0, slot=1, ratio=None, crash=None),
+            dict(op="create", cas=1, slot=2, cat="Op", day=0, data=[["k", pv.i(3)]], meta=[["m", pv.i(4)]]),
+            dict(op="save", cas=1, slot=2, ratio=None, crash=None),
+            dict(op="list", cas=2, cat="Op"), dict(leave),
+            dict(op="list", cas=3, cat="Op"), dict(op="get", cas=3, id="Op/20200227/%032x" % 1),
+            dict(op="get", cas=1, id="Op/20200227/%032x" % 3), dict(leave), dict(op="list", cas=1, cat="Op")]
+    return dict(cassettes=cass, ops=ops, categories=CATS, stream="fixed-exits")
+
+
 def generate(rng, tier):
     n = 260 if tier == "quick" else 2600
     cases = []
@@ -264,12 +302,23 @@ def generate(rng, tier):
     for p, cat, p2 in (("svc", "/api/v1/plans", "nb"), ("/abs", "Op", "abs"), ("a//b", "a//b", "a"), ("", "/x", "/"),
                        ("svc", "", "sv"), ("/", "/", "//"), ("a/", "Op//", "a")):
         cases.append(fixed_slashes(p, cat, p2))
+    # every read_only / transient combination x every way of closing (close(), `with` block left normally / through an
+    # Exception / through a non-Exception interrupt)
+    k = 0
+    for ro in (True, False):
+        for tr in (True, False):
+            for how in ["close"] + EXIT_MODES:
+                cases.append(fixed_exits(ro, tr, how, k))
+                k += 1
     # separate generators: the main streams above draw the same cases as before these streams existed
     rng_long, rng_slash = (__import__("random").Random(rng.getrandbits(64)) for _ in range(2))
     for _ in range(12 if tier == "quick" else 120):
         cases.append(gen_case(rng_long, tier, "long"))
     for _ in range(24 if tier == "quick" else 240):
         cases.append(gen_case(rng_slash, tier, "slashes"))
+    rng_exit = __import__("random").Random(rng.getrandbits(64))
+    for k in range(30 if tier == "quick" else 300):
+        cases.append(gen_case(rng_exit, tier, "exits"))
     return cases
 
 
@@ -377,7 +426,8 @@ def direct(case, obs):
             continue
         c = cass[op["cas"]]
         own = ROOT + norm(c["prefix"])
-        where = "op #%d %s on cassette %s" % (n, kind, json.dumps(c, sort_keys=True))
+        how = " (with block left through an exception of its body: %s)" % op["raises"] if op.get("raises") else ""
+        where = "op #%d %s%s on cassette %s" % (n, kind, how, json.dumps(c, sort_keys=True))
         if o["res"].startswith("other:"):
             fails.append(("unexpected-exception", "%s raised %s %s" % (where, o["res"], o.get("msg"))))
         # (1) read-only cassettes never mutate, and refuse create / save
@@ -457,6 +507,8 @@ def features(case):
         if op["op"] in ("close", "exit"):
             c = case["cassettes"][op["cas"]]
             f.add("close:ro=%d,tr=%d" % (c["read_only"], c["transient"]))
+            if op.get("raises"):
+                f.add("with-block-left-through-%s:ro=%d,tr=%d" % (op["raises"], c["read_only"], c["transient"]))
     return f
 
 
